@@ -166,7 +166,9 @@ def check_printf(record, events_py, verdict_prints, tol=True):
             floats = [i for i, a in enumerate(args) if isinstance(a, float)][:4]
             fnamed = [n for n, a in named.items() if isinstance(a, float)][:2]
             def near(x):
-                out = (x, math.nextafter(x, math.inf), math.nextafter(x, -math.inf), x * (1 + 1e-12), x * (1 - 1e-12))
+                up1, dn1 = math.nextafter(x, math.inf), math.nextafter(x, -math.inf)
+                up2, dn2 = math.nextafter(up1, math.inf), math.nextafter(dn1, -math.inf)
+                out = (x, up1, dn1, up2, dn2, math.nextafter(up2, math.inf), math.nextafter(dn2, -math.inf), x * (1 + 1e-12), x * (1 - 1e-12))
                 # whether a setting read back from a light holds 3500 or 3500.0 is not documented
                 return out + ((int(x),) if x == int(x) and abs(x) < 2 ** 53 else ())
             for combo in itertools.product(*[near(args[i]) for i in floats], *[near(named[n]) for n in fnamed]):
